@@ -98,7 +98,7 @@ def run(ctx):
     ctx.build(["c02"])
     mc(ctx)
     q = ctx.quick
-    per_arch = 3000 if q else 30000
+    per_arch = 6000 if q else 30000
     parts = 2 if q else 8
     jobs = []
     for a in ARCHS:
